@@ -111,6 +111,11 @@ def gen_env(rng):
     if cands and e["cwd"] == "tmp" and rng.random() < 0.6:
         value = "cwd" + str(rng.randrange(1000))
         e["cwd_files"] = {nm: cwd_file_content(nm, cands[nm], value) for nm in sorted(cands) if rng.random() < 0.7}
+    # further ways in which two interpreter processes serving the same experiment legitimately differ (drawn last)
+    e["PYTHONOPTIMIZE"] = rng.choice([None, None, None, "1", "2"])          # -O / -OO: asserts and docstrings stripped
+    e["TZ"] = rng.choice([None, None, "UTC", "Asia/Tokyo", "America/Los_Angeles"])
+    e["PYTHONIOENCODING"] = rng.choice([None, None, None, "latin-1", "ascii:replace"])
+    e["COLUMNS"] = rng.choice([None, None, "40", "200"])
     return e
 
 
@@ -142,9 +147,11 @@ class Node:
         env_spec = self.env
         r_child, w_parent = os.pipe()
         r_parent, w_child = os.pipe()
-        env = {k: v for k, v in os.environ.items() if not k.startswith("LC_") and k not in ("LANG", "LANGUAGE", "PYTHONUTF8", "PYTHONPATH", "PYTHONHASHSEED")}
+        env = {k: v for k, v in os.environ.items() if not k.startswith("LC_") and k not in ("LANG", "LANGUAGE", "PYTHONUTF8", "PYTHONPATH", "PYTHONHASHSEED",
+                                                                                        "PYTHONOPTIMIZE", "TZ", "PYTHONIOENCODING", "COLUMNS")}
         env["PYTHONHASHSEED"] = str(env_spec["hashseed"])
-        for k in ("LC_ALL", "LANG", "PYTHONUTF8", "LC_NUMERIC", "LC_COLLATE", "LC_CTYPE", "LC_MONETARY", "LC_TIME", "LC_MESSAGES"):
+        for k in ("LC_ALL", "LANG", "PYTHONUTF8", "LC_NUMERIC", "LC_COLLATE", "LC_CTYPE", "LC_MONETARY", "LC_TIME", "LC_MESSAGES",
+                  "PYTHONOPTIMIZE", "TZ", "PYTHONIOENCODING", "COLUMNS"):
             if env_spec.get(k) is not None:
                 env[k] = env_spec[k]
         env["VERIF_NODE_FDS"] = f"{r_child},{w_child}"
